@@ -26,6 +26,10 @@ THEOREMS += ['C06_kernels_lane_run', 'C06_kernels_lane_local', 'C06_launch_is_cp
              'C06_eval_cpu_instance_is_model', 'C06_accumulate_cpu_gpu_same_source_model', 'C06_eval_gpu_out_of_range', 'C06_eval_instance_example',
              'C06_capture_writeback_cpu_gpu_same_source_model', 'C06_capture_gpu_no_slot',
              'C06_capture_instance_example']   # driver code from the source text (Gen/WaveDriversSrc.v)
+THEOREMS += ['C06_state_transfer_cpu_is_per_position', 'C06_state_transfer_cpu_gpu_same_source_model', 'C06_state_transfer_cpu_gpu_state_positions',
+             'C06_state_transfer_launch_example', 'C06_state_transfer_io_condition_needed']   # state transfer over the whole launch (Proofs/WaveStateTransfer.v)
+THEOREMS += ['C06_eval_gpu_instance_is_cpu_instance', 'C06_c_prop_cpu_gpu_same_source_model', 'C06_c_prop_lane', 'C06_level_ranges_cover',
+             'C06_c_prop_build_is_model', 'C06_c_prop_model_is_w_c_prop', 'C06_c_prop_example']   # whole propagation CPU = GPU = model (Proofs/WaveCProp.v)
 
 
 def port_view(w, sims=None):
@@ -473,6 +477,12 @@ def run(ck):
         lfails = lfails + drivers_corr.run(ck, random.Random(ck.seed * 7919 + 66), ck.scale(30, 300))
     except Exception:
         ck.obligation('driver semantics correspondence ran', False, 'correspondence', traceback.format_exc()[-800:])
+    # the compositions the C06_c_prop_* theorems are about (Proofs/WaveCProp.v cpu_c_prop / gpu_c_prop / level_ranges) = the two c_prop methods
+    from harness import cprop_corr
+    try:
+        lfails = lfails + cprop_corr.run(ck, random.Random(ck.seed * 7919 + 67), ck.scale(12, 120))
+    except Exception:
+        ck.obligation('whole-propagation correspondence ran', False, 'correspondence', traceback.format_exc()[-800:])
     keyof = lambda d: 'options:' + d.get('kind', '?') + (':' + d['class'] if 'class' in d else '')
     unknown = [f for f in fails if ck.known_entry(keyof(f[0])) is None]
     ck.obligation('option / lane / code-path invariance holds on every generated configuration set (listed known findings excepted)',
